@@ -51,6 +51,15 @@ func LoadConfig(prop string) Config {
 	return c
 }
 
+// Repo is the tree under test: /repo, except in development runs of seeded changes on a scratch
+// worktree (VERIF_DEV_REPO, never set by a registered command).
+func Repo() string {
+	if r := os.Getenv("VERIF_DEV_REPO"); r != "" {
+		return strings.TrimRight(r, "/")
+	}
+	return "/repo"
+}
+
 // Thorough reports whether the thorough tier was requested.
 func (c Config) Thorough() bool { return c.Tier == "thorough" }
 
